@@ -17,6 +17,8 @@ ATOM = {
     "ellipsis": "...", "colon-kw": ":", "dotsym": ".x", "or0": "(|)", "fstr-stmt": 'f"{(setv q 1)}"', "fstr-star": 'f"{#* x}"',
     "dstar0": "(unpack-mapping)", "star0": "(unpack-iterable)", "dstar2": "(unpack-mapping x y)", "quote0": "(quote)",
     "unquote1": "~x", "dot0": "(.)", "dotkw": "(. x :k)",
+    "tryval": "(try 1 (except [] 2))", "ifstmt": "(if x (do (setv q 1) 2) 3)", "fnval": "(fn [] 1)", "listnone1": "[None]",
+    "listnone2": "[None x]",
 }
 # heads that run user code while compiling: an exception of that code is the user's, not the compiler's
 COMPILE_TIME_CODE = {"do-mac", "eval-and-compile", "eval-when-compile", "defreader"}
@@ -172,7 +174,7 @@ def main(run):
                 label="forms-gen", timeout=3000)
     if r.violated:
         raise MachineryError(f"HyForms: {r.violated}")
-    run.add_tlc(r, f"HyForms generator: {len(heads)} core macro heads x every sequence of <= 2 atoms out of 46 kinds")
+    run.add_tlc(r, f"HyForms generator: {len(heads)} core macro heads x every sequence of <= 2 atoms out of 51 kinds")
     rows = r.ex("FORM")
     sim = tlc.run("HyForms", tlc.cfg(constants=dict(consts, MaxArgs=5, AllowNested=True), invariants=["Export"]), run.work, workers=4,
                   simulate=f"num={3 if q else 40}", depth=6, seed=run.seed + 7, label="forms-sim", timeout=3000)
@@ -227,7 +229,7 @@ def main(run):
     run.sample({"form": texts[len(texts) // 2]})
     return run.finish("model_checking",
                       f"model trees: every core macro head ({len(heads)}; those that run user code at compile time excluded) x "
-                      "every sequence of <= 2 atoms of 46 kinds (symbols, keywords, literals, collections, odd dicts, unpackings, "
+                      "every sequence of <= 2 atoms of 51 kinds (symbols, keywords, literals, collections, odd dicts, unpackings, "
                       "clause forms, ...), random behaviours of the generator with <= 5 arguments including nested forms, and "
                       "mutations of the forms in tests/native_tests (drop / duplicate / swap / replace / unpack / empty a subform); "
                       "each is compiled by Hy, Python's compile() and marshal, the events are validated by TLC against the "
